@@ -9,9 +9,11 @@ def funcs : List (String × String) := [
   ("internal/target/queue/queue.go:Queue.Start", "a3de4613def4b988"),
   ("internal/target/queue/queue.go:Queue.deliver", "f9c76cc6fc51885f"),
   ("internal/target/queue/queue.go:Queue.openMessage", "e860a325c84bd4f8"),
+  ("internal/target/queue/queue.go:Queue.readDiskQueue", "d542914f9b1ab176"),
   ("internal/target/queue/queue.go:Queue.readMessageMeta", "02d7c83723fce1d9"),
   ("internal/target/queue/queue.go:Queue.storeNewMessage", "b3c9b8f26b968111"),
   ("internal/target/queue/queue.go:Queue.updateMetadataOnDisk", "53af3a3781a30de7"),
+  ("internal/target/queue/queue.go:queueDelivery.AddRcpt", "1c2d0bd0d73f0bb3"),
   ("internal/target/queue/queue.go:queueDelivery.Body", "606384d3a1d9a91b"),
   ("internal/target/queue/queue.go:queueDelivery.Commit", "b547da9a6ba96ed8"),
   ("internal/target/queue/queue.go:type QueueMetadata", "a01e328f233b5521")
